@@ -87,6 +87,8 @@ pub struct Cli<W: Write<Error = E>, E: Error, CommandBuffer: Buffer, HistoryBuff
     writer: W,
     #[cfg(not(feature = "history"))]
     _ph: PhantomData<HistoryBuffer>,
+    #[cfg(feature = "verif-hooks")]
+    pub(crate) verif_last: crate::verif::VerifInput,
 }
 
 impl<W, E, CommandBuffer, HistoryBuffer> Debug for Cli<W, E, CommandBuffer, HistoryBuffer>
@@ -128,6 +130,8 @@ where
             writer,
             #[cfg(not(feature = "history"))]
             _ph: PhantomData,
+            #[cfg(feature = "verif-hooks")]
+            verif_last: crate::verif::VerifInput::None,
         };
 
         cli.writer.flush_str(cli.prompt)?;
@@ -147,6 +151,8 @@ where
             writer: builder.writer,
             #[cfg(not(feature = "history"))]
             _ph: PhantomData,
+            #[cfg(feature = "verif-hooks")]
+            verif_last: crate::verif::VerifInput::None,
         };
 
         cli.writer.flush_str(cli.prompt)?;
@@ -163,6 +169,10 @@ where
         b: u8,
         processor: &mut P,
     ) -> Result<(), E> {
+        #[cfg(feature = "verif-hooks")]
+        {
+            self.verif_last = crate::verif::VerifInput::None;
+        }
         if let (Some(mut editor), Some(mut input_generator)) =
             (self.editor.take(), self.input_generator.take())
         {
@@ -233,6 +243,10 @@ where
     }
 
     fn on_text_input(&mut self, editor: &mut Editor<CommandBuffer>, text: &str) -> Result<(), E> {
+        #[cfg(feature = "verif-hooks")]
+        {
+            self.verif_last = crate::verif::VerifInput::from_text(text);
+        }
         let is_inside = editor.cursor() < editor.len();
         if let Some(c) = editor.insert(text) {
             if is_inside {
@@ -251,6 +265,10 @@ where
         control: ControlInput,
         processor: &mut P,
     ) -> Result<(), E> {
+        #[cfg(feature = "verif-hooks")]
+        {
+            self.verif_last = crate::verif::VerifInput::from_control(control);
+        }
         match control {
             ControlInput::Enter => {
                 self.writer.write_str(codes::CRLF)?;
@@ -457,5 +475,32 @@ where
         self.writer.flush()?;
 
         Ok(())
+    }
+}
+
+#[cfg(feature = "verif-hooks")]
+impl<W, E, CommandBuffer, HistoryBuffer> Cli<W, E, CommandBuffer, HistoryBuffer>
+where
+    W: Write<Error = E>,
+    E: embedded_io::Error,
+    CommandBuffer: Buffer,
+    HistoryBuffer: Buffer,
+{
+    /// Read-only snapshot of everything the CLI stores (verification harness only)
+    pub fn verif_state(&self) -> crate::verif::VerifState<'_> {
+        crate::verif::VerifState {
+            editor: self.editor.as_ref().map(|e| e.verif_parts()),
+            #[cfg(feature = "history")]
+            history: Some(self.history.verif_parts()),
+            #[cfg(not(feature = "history"))]
+            history: None,
+            decoder: self.input_generator.as_ref().map(|g| g.verif_parts()),
+            prompt: self.prompt,
+        }
+    }
+
+    /// Input event the last processed byte was decoded into (verification harness only)
+    pub fn verif_last_input(&self) -> crate::verif::VerifInput {
+        self.verif_last
     }
 }
